@@ -125,6 +125,26 @@ func implied(cond ast.Expr, tag ast.Expr, truth bool) []Atom {
 		if (x.Op == token.LAND && truth) || (x.Op == token.LOR && !truth) {
 			out = append(out, implied(x.X, nil, truth)...)
 			out = append(out, implied(x.Y, nil, truth)...)
+		} else if x.Op == token.LOR || x.Op == token.LAND {
+			// one of two alternatives holds: what both of them establish holds
+			out = append(out, commonAtoms(implied(x.X, nil, truth), implied(x.Y, nil, truth))...)
+		}
+	}
+	return out
+}
+
+// commonAtoms: the facts of a that b establishes too (same text, same truth).
+func commonAtoms(a, b []Atom) []Atom {
+	have := map[string]bool{}
+	for _, y := range b {
+		if y.Tag == nil {
+			have[exprStr(y.E)+"|"+boolStr(y.Truth)] = true
+		}
+	}
+	var out []Atom
+	for _, x := range a {
+		if x.Tag == nil && have[exprStr(x.E)+"|"+boolStr(x.Truth)] {
+			out = append(out, x)
 		}
 	}
 	return out
@@ -416,6 +436,13 @@ func lexicalGuards(pm map[ast.Node]ast.Node, n ast.Node, stop ast.Node) []Atom {
 			}
 			if len(x.List) == 1 {
 				out = append(out, implied(x.List[0], sw.Tag, true)...)
+			} else if len(x.List) > 1 && sw.Tag == nil {
+				// `case a, b:` of a tagless switch: one of them holds
+				common := implied(x.List[0], nil, true)
+				for _, e := range x.List[1:] {
+					common = commonAtoms(common, implied(e, nil, true))
+				}
+				out = append(out, common...)
 			}
 			// first-match semantics of a tagless switch: every earlier case was false
 			if sw.Tag == nil {
